@@ -201,3 +201,50 @@ def to_tla(o):
             raise ValueError("empty record not representable")
         return "[" + ", ".join("%s |-> %s" % (k, to_tla(v)) for k, v in o.items()) + "]"
     raise TypeError("to_tla: %r" % (o,))
+
+
+# ------------------------------------------------------------------ fast path (json.loads)
+_FAST_NAME = re.compile(r'([A-Za-z_][A-Za-z0-9_]*) \|->')
+_FAST_VAR = re.compile(r'^(?:/\\ )?([A-Za-z_][A-Za-z0-9_]*) = ', re.M)
+_STR_OK = re.compile(r'"[A-Za-z0-9_ .:+\-]*"')
+
+
+def _fast_value(text):
+    import json
+    t = text.replace('{', '<<').replace('}', '>>')
+    t = _FAST_NAME.sub(r'"\1":', t)
+    t = t.replace('[', '{').replace(']', '}').replace('<<', '[').replace('>>', ']')
+    t = t.replace('TRUE', 'true').replace('FALSE', 'false')
+    return json.loads(t)
+
+
+def parse_dump_fast(path, only=None):
+    """like parse_dump, but translates TLA+ value text to JSON with string replaces and lets
+    json.loads do the work.  Sound only when no string literal contains brackets/braces or the
+    words TRUE/FALSE and no function/model values are printed; falls back to the exact parser
+    per state when the translation does not parse."""
+    with open(path, 'r') as f:
+        text = f.read()
+    for chunk in _STATE_RE.split(text):
+        chunk = chunk.strip()
+        if not chunk:
+            continue
+        if only is not None and only not in chunk:
+            continue
+        try:
+            bad = False
+            for m in re.finditer(r'"(?:[^"\\]|\\.)*"', chunk):
+                s = m.group(0)
+                if not _STR_OK.fullmatch(s) or 'TRUE' in s or 'FALSE' in s:
+                    bad = True
+                    break
+            if bad:
+                raise ValueError
+            state = {}
+            ms = list(_FAST_VAR.finditer(chunk))
+            for i, m in enumerate(ms):
+                end = ms[i + 1].start() if i + 1 < len(ms) else len(chunk)
+                state[m.group(1)] = _fast_value(chunk[m.end():end])
+            yield state
+        except ValueError:
+            yield parse_state(chunk)
